@@ -237,7 +237,7 @@ func vLemmaNext() {
 
 // Commit.Clone (C15, C06): the clone carries the id and the block, holds a deep copy of exactly the non-empty buffers.
 //
-//@ lemma props=C15,C06
+//@ lemma props=C15,C06,C17
 func vLemmaCommitClone(idv uint64, chunk Chunk, b0 *Buffer) {
 	vAssume(b0 != nil)
 	c := &Commit{ID: idv, Chunk: chunk, Updates: []*Buffer{b0}}
